@@ -122,7 +122,8 @@ def emit_param_str(
                             if is_return
                             else "{name} : {typ}".format(name=name, typ=_param["typ"])
                         )
-                        if emit_type and _param.get("typ")
+                        # (the type line is all a return entry has for a name line: it is written whenever the type is known)
+                        if (emit_type or is_return) and _param.get("typ")
                         # an entry whose type is not written still needs its name line
                         else (None if is_return else name)
                     ),
